@@ -6,6 +6,7 @@ package sftp
 
 import (
 	"bytes"
+	"encoding/binary"
 	"fmt"
 	"os"
 	"strings"
@@ -80,6 +81,24 @@ func program(name, server string) (setup, burst [][]byte, files map[string]strin
 		setup = [][]byte{mustPkt(&sshFxpOpenPacket{ID: 1, Path: nm("f"), Pflags: sshFxfRead})}
 		burst = [][]byte{rd(10, "1", 1000, 65536), mustPkt(&sshFxpFstatPacket{ID: 11, Handle: "1"}), rd(12, "1", 60000, 65536), rd(13, "1", 0, 300000), rd(14, "1", 5, 1<<20),
 			rd(15, "1", 0, 32768), mustPkt(&sshFxpRealpathPacket{ID: 16, Path: "/p/../q"}), mustPkt(&sshFxpClosePacket{ID: 17, Handle: "1"})}
+	case "attrpipe": // requests whose attribute block is decoded late (SETSTAT, FSETSTAT, OPEN with attributes) pipelined with long packets behind them
+		setup = [][]byte{mustPkt(&sshFxpOpenPacket{ID: 1, Path: nm("f"), Pflags: sshFxfRead | sshFxfWrite})}
+		long := nm(strings.Repeat("Z", 200)) // an existing file (error messages of the os-backed server quote the root directory)
+		files[long] = "long"
+		// size, then access and modification time (applied after the truncation, so that later ATTRS replies do not show the clock)
+		size := func(n uint64) []byte {
+			return binary.BigEndian.AppendUint32(binary.BigEndian.AppendUint32(binary.BigEndian.AppendUint64(nil, n), 1700000000), 1700000001)
+		}
+		burst = [][]byte{
+			mustPkt(&sshFxpRealpathPacket{ID: 10, Path: "/p/../q"}),
+			mustPkt(&sshFxpSetstatPacket{ID: 11, Path: nm("g"), Flags: sshFileXferAttrSize | sshFileXferAttrACmodTime, Attrs: size(5)}),
+			mustPkt(&sshFxpStatPacket{ID: 12, Path: long}),
+			mustPkt(&sshFxpFsetstatPacket{ID: 13, Handle: "1", Flags: sshFileXferAttrSize | sshFileXferAttrACmodTime, Attrs: size(7)}),
+			mustPkt(&sshFxpLstatPacket{ID: 14, Path: long}),
+			mustPkt(&sshFxpStatPacket{ID: 15, Path: nm("g")}),
+			mustPkt(&sshFxpFstatPacket{ID: 16, Handle: "1"}),
+			mustPkt(&sshFxpClosePacket{ID: 17, Handle: "1"}),
+		}
 	case "twodirs": // two directory handles listed in an interleaved fashion: each reply must hold its own directory's entries
 		setup = [][]byte{mustPkt(&sshFxpOpendirPacket{ID: 1, Path: nm("da")}), mustPkt(&sshFxpOpendirPacket{ID: 2, Path: nm("db")})}
 		burst = [][]byte{mustPkt(&sshFxpReaddirPacket{ID: 10, Handle: "1"}), mustPkt(&sshFxpReaddirPacket{ID: 11, Handle: "2"}), mustPkt(&sshFxpStatPacket{ID: 12, Path: nm("f")}),
@@ -199,7 +218,7 @@ func describeClash(a, b int64) string {
 
 // progDeterministic: programs whose response bytes are the same under every schedule (no read races a write, listings of
 // directories nobody changes); their responses are compared byte for byte with a reference run in C02 as well.
-var progDeterministic = map[string]bool{"twodirs": true, "reads6": true, "reads12": true, "longlen": true, "pathkeep": true, "bigread": true}
+var progDeterministic = map[string]bool{"attrpipe": true, "twodirs": true, "reads6": true, "reads12": true, "longlen": true, "pathkeep": true, "bigread": true}
 
 type progOpts struct {
 	readOnly     bool
@@ -489,6 +508,8 @@ func init() {
 					pj("C18/sched", "os W=2 db3 path kept across buffer reuse", "instr-w2", "os", "pathkeep", 3, 600, true),
 					pj("C18/sched", "rs W=2 db3 six/twelve reads, over-long reads", "instr-w2", "rs", "reads6+reads12+longlen", 3, 600, true),
 					pj("C18/sched", "os W=2 db3 six reads, over-long reads, two listings", "instr-w2", "os", "reads6+longlen+twodirs", 3, 600, true),
+					pj("C18/sched", "rs W=2 db3 attribute blocks decoded late", "instr-w2", "rs", "attrpipe", 3, 600, true),
+					pj("C18/sched", "os W=2 db3 attribute blocks decoded late", "instr-w2", "os", "attrpipe", 3, 600, true),
 				}
 			} else {
 				js = []reg.Job{
@@ -501,6 +522,8 @@ func init() {
 					pj("C18/sched", "os W=2 db2 path kept across buffer reuse", "instr-w2", "os", "pathkeep", 2, 100, true),
 					pj("C18/sched", "rs W=2 db2 six reads (more pages outstanding than the pool keeps), over-long reads", "instr-w2", "rs", "reads6+longlen", 2, 100, true),
 					pj("C18/sched", "os W=2 db2 six reads, over-long reads, two listings", "instr-w2", "os", "reads6+longlen+twodirs", 2, 100, true),
+					pj("C18/sched", "rs W=2 db2 attribute blocks decoded late", "instr-w2", "rs", "attrpipe", 2, 100, true),
+					pj("C18/sched", "os W=2 db2 attribute blocks decoded late", "instr-w2", "os", "attrpipe", 2, 100, true),
 				}
 			}
 			js = withPolicies(tier, js, func(j reg.Job) bool { return j.Args["server"] != "os" })
